@@ -125,8 +125,24 @@ def gen_world(rng, profile=None):
                     left = delta - used
                     if left >= 1 and links[-1].start != links[-1].end:
                         links[-1] = links[-1]._replace(distance_km=(left + 0.5) / 3600.0 * 40.0)
+                # some of these vehicles are on their way to a station or a base along such a route (the chain is extended to the
+                # entity's cell); drawn from a stream of its own
+                rng2 = random.Random(f'multi-target|{v.id}|{chain}|{len(stations)}|{len(bases)}')
+                state = None
+                if rng2.random() < 0.45 and (stations or bases):
+                    from nrel.hive.state.vehicle_state.dispatch_station import DispatchStation
+                    from nrel.hive.state.vehicle_state.dispatch_base import DispatchBase
+                    ents = [e for e in list(stations) + list(bases) if e.membership.grant_access_to_membership(v.membership)] or (list(stations) + list(bases))
+                    ent = rng2.choice(ents)
+                    if links[-1].end != ent.geoid:
+                        a, b = links[-1].end, ent.geoid
+                        links.append(LinkTraversal(link_id=f'{a}-{b}', start=a, end=b, distance_km=H3Ops.great_circle_distance(a, b), speed_kmph=40))
+                    if ent in stations:
+                        state = DispatchStation.build(v.id, ent.id, tuple(links), rng2.choice(sorted(ent.state.keys())))
+                    else:
+                        state = DispatchBase.build(v.id, ent.id, tuple(links))
                 links = tuple(links)
-                vehicles[idx] = v.modify_vehicle_state(Repositioning.build(v.id, links))
+                vehicles[idx] = v.modify_vehicle_state(state or Repositioning.build(v.id, links))
     sim = ml.mock_sim(sim_time=t0, sim_timestep_duration_seconds=delta, vehicles=tuple(vehicles), stations=tuple(stations), bases=tuple(bases))
     ids = ([v.id for v in vehicles] + [f's{k}' for k in range(10)] + [f'b{k}' for k in range(4)] + REQ_IDS + CHARGER_IDS
            + FLEETS + ['bev', 'ice', 's1', 'v9', 'v5', 'v6', 'b5', 's5'])
